@@ -14,7 +14,7 @@ RULE += (' Added after the seeded rounds: NumPy-scalar hyper-parameters, calls u
 ASSUMPTIONS = ["6-sigma bands: false-alarm probability < 2e-9 per test; std of the sample std = sigma*sqrt((kurtosis-1)/(4n))",
                "NumPy's global generator is seeded from VERIF_SEED and the case seed"]
 SHARD_TIMEOUT = {"quick": 900, "thorough": 3600}
-SHAPES = [[200, 100], [100, 400], [50, 20, 5, 4], [64, 8, 7, 7], [300, 70], [40, 100, 5], [10, 20, 5, 5, 4], [400, 50], [32, 16, 3, 7], [16, 8, 2, 5, 3]]
+SHAPES = [[300, 300], [257, 257], [200, 100], [100, 400], [50, 20, 5, 4], [64, 8, 7, 7], [300, 70], [40, 100, 5], [10, 20, 5, 5, 4], [400, 50], [32, 16, 3, 7], [16, 8, 2, 5, 3]]
 RANDOM_INITS = ["uniform_", "normal_", "xavier_uniform_", "xavier_normal_", "kaiming_uniform_", "kaiming_normal_"]
 
 
@@ -61,7 +61,7 @@ def gen_cases(tier, seed):
                 else:
                     c["args"] = {"a": float(rng.choice([0, 0.2])), "mode": ["fan_in", "fan_out"][int(rng.integers(2))], "nonlinearity": "leaky_relu"}
                 cases.append(c)
-        for layer in ("Linear", "Conv1d", "Conv2d", "Linear-fan1", "Conv1d-fan1", "Conv2d-nonsquare"):
+        for layer in ("Linear", "Conv1d", "Conv2d", "Linear-fan1", "Conv1d-fan1", "Conv2d-nonsquare", "Conv1d-dilated", "Conv2d-dilated-strided"):
             cases.append({"init": "layer:" + layer, "seed": int(rng.integers(2 ** 31)), "bias": True})
     cases.append({"init": "tables", "seed": 0})
     for shp in ([3], [7, 2], [2, 2, 2]):
@@ -179,6 +179,10 @@ def run_case(ns, ctx, c):
                 m = ns.nn.Conv1d(1, 60, 1); fan = 1
             elif layer == "Conv2d-nonsquare":
                 m = ns.nn.Conv2d(2, 30, (1, 5)); fan = 10
+            elif layer == "Conv1d-dilated":
+                m = ns.nn.Conv1d(3, 20, 3, dilation=4); fan = 9            # fan_in counts kernel elements, whatever the dilation / stride
+            elif layer == "Conv2d-dilated-strided":
+                m = ns.nn.Conv2d(2, 16, (2, 3), stride=2, dilation=(3, 2)); fan = 12
             else:
                 m = ns.nn.Conv2d(4, 8, (3, 2)); fan = 24
             ws.append(m.weight.data.ravel().copy()); bs.append(m.bias.data.ravel().copy())
